@@ -39,6 +39,21 @@ CHECKS = {
             "Generated-input search over patterns of every kind and candidate lists rich in version ties: pairwise results vs model, argument-order symmetry, and 18 fold orders per list; a second stream checks self-consistency on arbitrary patterns/names.",
             "Trusts M-dewey for the winner (letter-free versions); arbitrary stream uses no model.",
             "pbt"),
+    "C07": ("DESIGN.md section 4 / C07",
+            "property-based round-trip and history-independence testing (metamorphic over call histories) against reference model M-summary",
+            "Generated-input search: an assignment of values is realised by two independent interleaved set_*/push_* histories; printed form must equal the model's canonical form for both, parse back to the same 23 values, and re-print byte-identically.",
+            "Trusts M-summary.print/apply (self-checked); values without CR/LF and non-empty lists only.",
+            "pbt"),
+    "C08": ("DESIGN.md section 4 / C08",
+            "property-based differential testing with fault injection against M-summary.parse; enumeration of all single and double removals of required variables and of all 2^11 API subsets",
+            "Generated-input search with injected faults: acceptance must coincide with the model and the reported error must be a cause actually present (exact when there is one cause); is_completed() is enumerated over every subset of the required variables.",
+            "Trusts M-summary.parse/causes (self-checked); with several simultaneous causes any one is accepted.",
+            "pbt"),
+    "C09": ("DESIGN.md section 4 / C09",
+            "property-based metamorphic testing over chunk partitions (enumerated single cuts, pairs, fixed sizes, random) with fault injection of one malformed entry",
+            "Generated-input search over (stream, partition): every partition of each generated stream must give the same entries as the one-call write and the model; for a malformed entry the failing write, its error kind and the entries collected so far are checked for every partition.",
+            "Trusts M-summary for the expected entries; doubled blank lines (empty entries) are outside the generated domain.",
+            "pbt"),
     "C14": ("DESIGN.md section 4 / C14",
             "property-based differential testing against a line-level reference model (M-plist) over generated byte documents, shrinking",
             "Generated-input search: documents of generated lines (one- and two-byte file names, every command with every argument shape, unknown commands, blank lines, raw bytes) are parsed and compared line by line and as a whole entry list with an independent model. Exploration of documents of <= 30 lines.",
